@@ -63,19 +63,19 @@ package rp
 // by oidc.FindMatchingKey for use "sig" and this algorithm, and go-jose verified with that key.
 //@ spec func keyAccepted(jws *jose.JSONWebSignature, alg string, payload string) bool
 //@ func rp.remoteKeySet.verifySignatureCached
-//@   requires r != nil && jws != nil
+//@   requires valid(r) && valid(jws)
 //@   ensures with-selected-key: result0 != nil ==> callres("oidc.FindMatchingKey", 1) == nil
 //@        && joseVerified(jws, callres("oidc.FindMatchingKey", 0), bstr(result0)) && usableKey(callres("oidc.FindMatchingKey", 0), "sig", alg)
 //@   defines accepted: result0 != nil ==> keyAccepted(jws, alg, bstr(result0))
 //@   ensures no-error-with-payload: result0 != nil ==> result1 == nil
 //@ func rp.remoteKeySet.verifySignatureRemote
-//@   requires r != nil && jws != nil
+//@   requires valid(r) && valid(jws)
 //@   ensures with-selected-key: err == nil ==> callres("oidc.FindMatchingKey", 1) == nil
 //@        && joseVerified(jws, callres("oidc.FindMatchingKey", 0), bstr(result0)) && usableKey(callres("oidc.FindMatchingKey", 0), "sig", alg)
 //@   defines accepted: err == nil ==> keyAccepted(jws, alg, bstr(result0))
 //@   ensures fail-closed: err != nil ==> result0 == nil
 // A token without alg header is checked against the configured default algorithm.
 //@ func rp.remoteKeySet.VerifySignature
-//@   requires r != nil && jws != nil
+//@   requires valid(r) && valid(jws)
 //@   ensures accepted: err == nil ==> keyAccepted(jws, ite(callres("oidc.GetKeyIDAndAlg", 1) == "", old(r.defaultAlg), callres("oidc.GetKeyIDAndAlg", 1)), bstr(result0))
 //@   ensures fail-closed: err != nil ==> result0 == nil
